@@ -40,7 +40,11 @@ def gen_cases(rng, tier, variants, n_random):
         pipe = pg.rand_tree(rng, variants, rng.randint(1, 5), nhot)
         evs = [["sub"]] + pg.rand_events(rng, nhot, rng.randint(0, 12), malformed=0.4)
         fl = "threads" if rng.random() < 0.4 else "local"
-        out.append(Case("pipe", fl, [("pipe", [pipe])], evs, {"kind": "random-tree"}))
+        fields = [("pipe", [pipe])]
+        if rng.random() < 0.3:
+            # subscribe the way users do: .on_error(f).on_complete(g).subscribe(h)
+            fields = [("closure", ["1"])] + fields
+        out.append(Case("pipe", fl, fields, evs, {"kind": "random-tree"}))
     return out
 
 
